@@ -108,6 +108,7 @@ func registry() []PropSpec {
 		{
 			ID: "C17",
 			Quick: []HarnessSpec{
+				{Pkg: pkgRefServer, Func: "H17u_q", Unwind: 10, Note: "rawResponseRecorder.WrapUnary on a real connect.Request carrying a UnaryRequest or an IdempotentUnaryRequest, with or without a raw_response in its definition"},
 				{Pkg: pkgRefServer, Func: "H17c_q", Unwind: 10, Note: "rawResponseWriter: every sequence of <=4 operations from {Write, WriteHeader, Flush, setRawResponse}"},
 				{Pkg: pkgRefServer, Func: "H17d_q", Unwind: 10, Note: "rawResponseWriter.finish: status unset/201/503, 2 raw header values, 1 trailer, unary identity body of <=2 symbolic bytes, a handler-set header and a handler write that must not survive"},
 				{Pkg: pkgInternal, Func: "H17a_q", Unwind: 12, UnwindFor: map[string]int{"h17a": 44}, Note: "WriteRawStreamContents/WriteRawMessageContents, identity compression: <=2 items, flags 0..300, explicit length any uint32 or computed, payload <=2 symbolic bytes or absent; destination is a recording WriteCloser"},
